@@ -215,6 +215,12 @@ func (dec *Decoder) nextField(advance int) {
 		dec.fail(0, "failed to parse") // TODO: better error message
 		return
 	}
+	if !field.IsValid() {
+		// ConsumeTag only rejects numbers below 1; without this check Loop
+		// would stop at the field and silently ignore the rest of the input.
+		dec.fail(0, "invalid field number")
+		return
+	}
 	dec.buffer = dec.buffer[n:]
 	dec.pendingField, dec.pendingWire = FieldNumber(field), wire
 }
